@@ -56,6 +56,24 @@ def run(ctx):
                 dict(got=[float(x) for x in cp[:5]], finite_difference_of_storage=[float(x) for x in want[:5]], So=[float(x) for x in so[:5]], Sg=[float(x) for x in (1 - so - sw)[:5]]))
         if kind == "constant" and np.abs(cp).max() > 1e-12 * scale:
             bad("multiphase compressibility does not vanish for pressure-independent tables", inp, float(np.abs(cp).max()))
+        # vaporised oil that sets in at a pressure INSIDE the table (Rv exactly zero below a knot, rising above it): queries that lie entirely
+        # in the dry range, one at a time and as an array, up to the knot itself - the one-psi difference reaches across the knot
+        if k < (4 if ctx.quick else 60) and len(P) >= 6:
+            jk = len(P) // 2
+            rv_on = np.where(np.asarray(P, float) > P[jk], 2e-6 * (np.asarray(P, float) - P[jk]), 0.0)
+            pvt_on = dict(pvt, Rv=interp1d(P, rv_on, fill_value="extrapolate"))
+            q_dry = np.array([float(P[jk]), float(P[jk]) - 0.2, float(P[jk]) - 0.45, float(P[jk]) - 0.7, 0.5 * float(P[jk - 1] + P[jk])])
+            so_q = np.full(len(q_dry), 0.55 * (1 - sw))
+            want_on = doc_storage(q_dry + 0.5, so_q, sw, phi, pvt_on) - doc_storage(q_dry - 0.5, so_q, sw, phi, pvt_on)
+            ev += 2
+            got_arr = np.asarray(compressibility_combined_func(q_dry, so_q, phi, sw, pvt_on), float)
+            got_one = np.array([float(np.ravel(compressibility_combined_func(float(q_), float(s_), phi, sw, pvt_on))[0]) for q_, s_ in zip(q_dry, so_q)])
+            scale_on = np.abs(doc_storage(q_dry, so_q, sw, phi, pvt_on)).max()
+            for how_, got_ in (("an array of pressures all below the onset of vaporised oil", got_arr), ("one pressure at a time", got_one)):
+                if not np.allclose(got_, want_on, rtol=1e-9, atol=1e-13 * scale_on):
+                    bad("multiphase compressibility is not the pressure difference (derivative) of the documented stored mass at fixed saturation "
+                        "(vaporised oil sets in at a knot inside the table; queried at and just below the knot)", dict(**inp, queried_as=how_, knot=float(P[jk]), pressures=[float(x) for x in q_dry]),
+                        dict(got=[float(x) for x in got_], finite_difference_of_storage=[float(x) for x in want_on]))
         # pressure and saturation held as pandas Series taken from two different frames (cell pressures indexed by cell id, saturations
         # with the default index): the arguments are paired by POSITION, as for arrays
         if k < (4 if ctx.quick else 60):
